@@ -229,6 +229,37 @@ bool specParse(const std::string& bytes, const std::vector<TArr>& arrs, bool ix,
     return true;
 }
 
+// listing of a formatted file through the real reader, array by array, in the format of
+// Model/EclFmtReadIO.lean
+std::string fmtListing(const std::string& path) {
+    EclFile f(path);
+    auto list = f.getList();
+    auto esl = f.getElementSizeList();
+    std::string out = "ok ";
+    auto joinOr = [](const std::vector<std::string>& v) { if (v.empty()) return std::string("-"); std::string o; for (size_t i = 0; i < v.size(); ++i) { if (i) o += ","; o += v[i]; } return o; };
+    for (size_t i = 0; i < list.size(); ++i) {
+        auto& [name, type, num] = list[i];
+        if (i) out += ";";
+        out += vh::hex(padName(name)) + ":" + tyName(type) + (type == C0NN ? std::to_string(esl[i]) : std::string()) + ":" + std::to_string(num) + ":";
+        std::string payload;
+        try {
+            std::vector<std::string> items;
+            switch (type) {
+            case INTE: for (int v : f.get<int>(i)) items.push_back(std::to_string(v)); payload = joinOr(items); break;
+            case LOGI: { auto& v = f.get<bool>(i); std::string o; for (bool b : v) o += b ? 'T' : 'F'; payload = v.empty() ? "-" : o; } break;
+            case CHAR: case C0NN: for (auto& v : f.get<std::string>(i)) items.push_back(vh::hex(v)); payload = joinOr(items); break;
+            case REAL: for (float v : f.get<float>(i)) items.push_back(vh::hexF32(v)); payload = joinOr(items); break;
+            case DOUB: for (double v : f.get<double>(i)) items.push_back(vh::hexF64(v)); payload = joinOr(items); break;
+            default: payload = "-"; break;
+            }
+        } catch (const std::exception&) { payload = "err"; }
+        out += payload;
+    }
+    return out;
+}
+
+std::string setw11(long v) { char b[32]; std::snprintf(b, sizeof b, "%11ld", v); return b; }
+
 } // namespace
 
 int main(int argc, char** argv) {
@@ -342,6 +373,129 @@ int main(int argc, char** argv) {
                 sink.count(ans == "err" ? "decode.answer.err" : "decode.answer.ok");
             }
             fs::remove(path);
+        }
+
+        // (3) formatted files through the real reader, array by array: valid files, then
+        // header-directed and body mutations (Model/EclFmtRead.lean answers the same text)
+        {
+            int nf = tier == "thorough" ? 80 : 16;
+            static const std::string bodyAlpha = "0123456789+-.ED 'TF\n";
+            for (int k = 0; k < nf; ++k) {
+                int na = rng.range(1, 5);
+                std::vector<TArr> arrs;
+                for (int j = 0; j < na; ++j) {
+                    auto t = rng.pick(types);
+                    size_t n = t == MESS ? 0 : (rng.coin(1, 6) ? 0 : rng.below(t == DOUB ? 30 : 60) + (rng.coin(1, 10) ? (t == CHAR || t == C0NN ? 105 : 1000) : 0));
+                    int esz = (t == C0NN) ? rng.pick(std::vector<int>{ 4, 8, 9, 13, 30, 77, 78, 120 }) : 0;
+                    TArr a = makeArr(rng, t, n, esz);
+                    // finite values only: inf/nan tokens are outside the strtod model
+                    for (auto& v : a.dv) if (!std::isfinite(v)) v = 1.5;
+                    for (auto& v : a.fv) if (!std::isfinite(v)) v = 1.5f;
+                    arrs.push_back(a);
+                }
+                std::string path = tmp + "/FM" + std::to_string(k) + ".FUNRST";
+                { EclOutput out(path, true, std::ios::out); if (rng.coin(1, 4)) out.set_ix(); for (auto& a : arrs) writeArr(out, a); }
+                std::string text = vh::slurp(path);
+                int nmut = tier == "thorough" ? 30 : 10;
+                for (int m = 0; m <= nmut; ++m) {
+                    std::string b = text;
+                    std::string kind = "valid";
+                    if (m > 0 && !b.empty()) {
+                        int which = rng.range(0, 3);
+                        // start of a random header line
+                        std::vector<size_t> hdrs;
+                        for (size_t p = 0; p + 31 <= b.size(); ++p) if ((p == 0 || b[p - 1] == '\n') && b[p] == ' ' && b[p + 1] == '\'' && b[p + 10] == '\'') hdrs.push_back(p);
+                        if (which == 0 && !hdrs.empty()) {
+                            size_t h = rng.pick(hdrs);
+                            long cur = std::atol(b.substr(h + 12, 11).c_str());
+                            long nv = rng.pick(std::vector<long>{ 0, 1, cur + 1, cur > 0 ? cur - 1 : 2, cur + 7, 1000, 1001, -1, -5, cur * 2 + 3 });
+                            b.replace(h + 12, 11, setw11(nv)); kind = "count";
+                        } else if (which == 1 && !hdrs.empty()) {
+                            size_t h = rng.pick(hdrs);
+                            static const std::vector<std::string> tags = { "INTE", "REAL", "DOUB", "LOGI", "CHAR", "MESS", "C008", "C004", "C013", "C0 8", "C-08", "C+09", "Cabc", "XXXX", "INT ", "C000" };
+                            b.replace(h + 25, 4, rng.pick(tags)); kind = "type";
+                        } else if (which == 2 && !hdrs.empty()) {
+                            size_t h = rng.pick(hdrs);
+                            size_t off = rng.pick(std::vector<size_t>{ 1, 10, 24, 29, 30, 2, 5, 11, 23 });
+                            b[h + off] = rng.pick(std::vector<char>{ ' ', '\'', 'A', '\n', '1' }); kind = "hdrchar";
+                        } else {
+                            size_t p = rng.below(b.size());
+                            b[p] = bodyAlpha[rng.below(bodyAlpha.size())]; kind = "bodychar";
+                        }
+                    }
+                    std::string mp = tmp + "/Y.FUNRST";
+                    vh::spit(mp, b);
+                    std::string ans;
+                    try { ans = fmtListing(mp); } catch (const std::exception&) { ans = "err"; }
+                    sink.emit("eclfmtrd.read " + vh::hex(b), ans);
+                    sink.count("fmtread." + kind);
+                    sink.count(ans == "err" ? "fmtread.answer.err" : (ans.find(":err") != std::string::npos ? "fmtread.answer.some-array-err" : "fmtread.answer.ok"));
+                }
+                fs::remove(path);
+            }
+
+            // REAL / DOUB fields: the real writer's column text against Model/FmtReal.lean, which
+            // gets the snprintf text and the sign as inputs
+            {
+                int nv = tier == "thorough" ? 3000 : 500;
+                auto ed = extremeDoubles(); auto ef = extremeFloats();
+                for (int ixi = 0; ixi < 2; ++ixi) {
+                    std::vector<double> dv; std::vector<float> fv;
+                    for (int k = 0; k < nv; ++k) {
+                        double d = rng.coin(1, 5) ? rng.pick(ed) : (rng.coin(1, 3) ? vh::f64FromBits(rng.next()) : (rng.unit() - 0.5) * std::pow(10.0, rng.range(-320, 308)));
+                        if (!std::isfinite(d)) d = -9.99999999999995e-101;     // rounds up into the next decade
+                        float f = rng.coin(1, 5) ? rng.pick(ef) : (rng.coin(1, 3) ? vh::f32FromBits((uint32_t) rng.next()) : (float) ((rng.unit() - 0.5) * std::pow(10.0, rng.range(-44, 38))));
+                        if (!std::isfinite(f)) f = 9.9999999e9f;
+                        dv.push_back(d); fv.push_back(f);
+                    }
+                    for (double d : { 9.99999999999995e98, 9.9999999999999e98, 1e99, 1e-100, 9.99999999999995e-101, -1e-99, 1e100, 1e-101 }) dv.push_back(d);
+                    std::string pd = tmp + "/RD.FUNRST", pr = tmp + "/RR.FUNRST";
+                    { EclOutput out(pd, true, std::ios::out); if (ixi) out.set_ix(); out.write("D", dv); }
+                    { EclOutput out(pr, true, std::ios::out); if (ixi) out.set_ix(); out.write("R", fv); }
+                    std::string td = vh::slurp(pd).substr(31), tr = vh::slurp(pr).substr(31), fd, fr;
+                    for (char c : td) if (c != '\n') fd += c;
+                    for (char c : tr) if (c != '\n') fr += c;
+                    for (size_t k = 0; k < dv.size(); ++k) {
+                        char b[64]; std::snprintf(b, sizeof b, "%19.13E", dv[k]);
+                        sink.emit(std::string("fmtreal.doub ") + (ixi ? "1 " : "0 ") + (dv[k] == 0.0 ? "1 " : "0 ") + (dv[k] < 0.0 ? "1 " : "0 ") + vh::hex(std::string(b)), vh::hex(fd.substr(k * 23, 23)));
+                        sink.count("fmtreal.doub");
+                    }
+                    for (size_t k = 0; k < fv.size(); ++k) {
+                        char b[64]; std::snprintf(b, sizeof b, "%10.7E", fv[k]);
+                        sink.emit(std::string("fmtreal.real ") + (ixi ? "1 " : "0 ") + (fv[k] == 0.0f ? "1 " : "0 ") + (fv[k] < 0.0f ? "1 " : "0 ") + vh::hex(std::string(b)), vh::hex(fr.substr(k * 17, 17)));
+                        sink.count("fmtreal.real");
+                    }
+                    fs::remove(pd); fs::remove(pr);
+                }
+            }
+            // the DOUB token lambda on single tokens: printed doubles and damaged ones
+            int nt = tier == "thorough" ? 6000 : 800;
+            static const std::string tokAlpha = "0123456789+-.ED";
+            auto ed = extremeDoubles();
+            for (int k = 0; k < nt; ++k) {
+                std::string tok;
+                int how = rng.range(0, 3);
+                if (how <= 1) {
+                    double v = rng.coin(1, 3) ? rng.pick(ed) : (rng.coin() ? vh::f64FromBits(rng.next()) : (rng.unit() - 0.5) * std::pow(10.0, rng.range(-320, 308)));
+                    if (!std::isfinite(v)) v = 0.1;
+                    char buf[64];
+                    const char* fmts[] = { "%.13E", "%.16E", "%.17g", "%.3f", "%.20E" };
+                    std::snprintf(buf, sizeof buf, fmts[rng.below(5)], v);
+                    tok = buf;
+                    if (rng.coin(1, 3)) { auto p = tok.find('E'); if (p != std::string::npos) { if (rng.coin()) tok[p] = 'D'; else tok.erase(p, 1); } }
+                    if (how == 1 && !tok.empty()) tok[rng.below(tok.size())] = tokAlpha[rng.below(tokAlpha.size())];
+                } else {
+                    int len = rng.range(1, 12);
+                    for (int i = 0; i < len; ++i) tok += tokAlpha[rng.below(tokAlpha.size())];
+                }
+                std::string ans;
+                try { auto v = readFormattedDoubArray(tok + " ", 1, 0); ans = vh::hexF64(v.at(0)); } catch (const std::exception&) { ans = "err"; }
+                sink.emit("eclfmtrd.strtod " + vh::hex(tok), ans);
+                sink.count(ans == "err" ? "strtod.err" : "strtod.value");
+                try { auto v = readFormattedRealArray(tok + " ", 1, 0); ans = vh::hexF32(v.at(0)); } catch (const std::exception&) { ans = "err"; }
+                sink.emit("eclfmtrd.stof " + vh::hex(tok), ans);
+                sink.count(ans == "err" ? "stof.err" : "stof.value");
+            }
         }
         sink.writeStats(outdir + "/stats.json");
         return 0;
